@@ -143,6 +143,7 @@ type unitResult struct {
 	MaxDepth    int               `json:"max_depth"`
 	OpFail      map[string]int64  `json:"op_fail"`
 	OpOk        map[string]int64  `json:"op_ok"`
+	BlockedAt   []string          `json:"blocked_at"`
 }
 
 // Explorer is the per-process exploration state.
@@ -245,6 +246,9 @@ func (x *Explorer) step(op *Op, parent []Measure, path []string, root string, ph
 	x.res.Transitions++
 	if !br.OK() {
 		x.res.Blocked++
+		if len(x.res.BlockedAt) < 3 {
+			x.res.BlockedAt = append(x.res.BlockedAt, fmt.Sprintf("%s%v: %s", root, path, blockFailureDisc(br.Err)))
+		}
 		if x.Cfg.BlockFailure && judge {
 			x.record(Finding{Clause: "block_processing_failed", Culprit: "block", Disc: blockFailureDisc(br.Err), Detail: br.Err}, root, path, phase)
 		}
@@ -559,6 +563,7 @@ type Summary struct {
 	OpFail      map[string]int64
 	OpOk        map[string]int64
 	Wall        float64
+	BlockedAt   []string
 }
 
 func nWorkers() int {
@@ -722,6 +727,9 @@ func RunMaster(cfg *Config, workerArgs []string) *Summary {
 				}
 				for k, v := range r.OpOk {
 					sum.OpOk[k] += v
+				}
+				if len(sum.BlockedAt) < 10 {
+					sum.BlockedAt = append(sum.BlockedAt, r.BlockedAt...)
 				}
 				if r.Incomplete {
 					sum.Exhaustive = false
